@@ -421,6 +421,74 @@ theorem visits_with_any_request_le_tries (tries : Nat) (ht : 1 ≤ tries) (cfg :
       simp only [List.length_cons]; omega
     · omega
 
+/-! ### restarts: the process dies while an attempt is in flight, the next run continues on the same table -/
+
+/-- what happens to one URL over a sequence of runs -/
+inductive RunEvent
+  /-- a visit that runs to its check-in -/
+  | visit (a : VisitAdv)
+  /-- the item is checked out (`in_progress`), the process dies before the check-in, and the next run's
+  `release()` puts it back (`todo`); the robots pool of the dead process is gone -/
+  | killedAndRestarted
+
+theorem release_tryCount (rec : Rec) : (release rec).tryCount = rec.tryCount := by
+  unfold release; split <;> rfl
+
+/-- per event: was it a COMPLETED visit that sent a request (page or robots.txt)? -/
+def eventsFrom (tries : Nat) (cfg : Cfg) (r : Req) : List RunEvent → Rec → Option Bool → List Bool
+  | [], _, _ => []
+  | .killedAndRestarted :: rest, rec, _ =>
+    false :: eventsFrom tries cfg r rest (release { rec with status := .inProgress }) none
+  | .visit (acc, adv, advR, d) :: rest, rec, pool =>
+    let v := visitR tries acc cfg adv advR d r rec pool
+    (!(v.sent.isEmpty && v.robotsSent.isEmpty)) ::
+      eventsFrom tries cfg r rest (afterVisitR tries acc cfg adv advR d r rec pool) v.pool
+
+/-- `attempts_over_restarts_le_tries`: over ANY sequence of runs — visits against arbitrary servers,
+interleaved with any number of crashes in mid-attempt and restarts on the same table — the completed
+attempts (visits that sent a request) of a URL number at most `tries − try_count`: a restart never hands
+the tries budget back.  (Each crash adds at most its one interrupted, uncounted attempt.)  tries ≥ 1. -/
+theorem attempts_over_restarts_le_tries (tries : Nat) (ht : 1 ≤ tries) (cfg : Cfg) (r : Req) :
+    ∀ (evs : List RunEvent) (rec : Rec) (pool : Option Bool),
+      ((eventsFrom tries cfg r evs rec pool).filter (· = true)).length ≤ tries - rec.tryCount := by
+  intro evs
+  induction evs with
+  | nil => intro rec pool; simp [eventsFrom]
+  | cons e rest ih =>
+    intro rec pool
+    cases e with
+    | killedAndRestarted =>
+      unfold eventsFrom
+      have := ih (release { rec with status := .inProgress }) none
+      rw [release_tryCount] at this
+      simpa using this
+    | visit a =>
+      obtain ⟨acc, adv, advR, d⟩ := a
+      unfold eventsFrom
+      have hinc := (visitR_one_checkin tries acc cfg adv advR d r rec pool).2
+      have hreq := (visitR_requests tries acc cfg adv advR d r rec pool).1
+      have := ih (afterVisitR tries acc cfg adv advR d r rec pool) (visitR tries acc cfg adv advR d r rec pool).pool
+      rw [hinc] at this
+      simp only [List.filter_cons]
+      split
+      · rename_i hne
+        have : rec.tryCount < tries := by
+          have hh : (visitR tries acc cfg adv advR d r rec pool).sent ≠ [] ∨
+              (visitR tries acc cfg adv advR d r rec pool).robotsSent ≠ [] := by
+            simpa using hne
+          rcases hreq hh with h | h
+          · omega
+          · exact h
+        simp only [List.length_cons]; omega
+      · omega
+
+/-- non-vacuity: tries = 3, two failed attempts, a crash during the third, restart: exactly one more attempt -/
+example :
+    let adv := scriptAdv [.resp 500 false .invalid]
+    let v : RunEvent := .visit (true, adv, adv, false)
+    eventsFrom 3 witnessCfg witnessReq [v, v, .killedAndRestarted, v, v, v] ⟨.todo, 0⟩ (some true)
+      = [true, true, false, true, false, false] := by decide
+
 /-! ### the crawl of a finite URL set terminates -/
 
 /-- one URL of the finite universe: not discovered yet, or its table record -/
